@@ -81,8 +81,33 @@ TEMPLATES = [
     ("pow", "{A} ^ {B}", 2), ("shift", "[{A} << {B}, {A} >> {B}]", 2), ("range", "force_({A} til {B} by {C})", 3), ("range_to", "force_({A} to {B} by {C})", 3), ("range_list", "list({A} to {B})", 2),
     ("range_unpack", "a, b := {A} til {B} by {C}", 3), ("range_only", "only({A} to {B} by {C})", 3), ("range_zip", "({A} til {B} by {C}) zip [1, 2]", 3),
     ("range_in", "{A} in ({B} til {C})", 3), ("str_range_gap", "'\\u{{d7ff}}' to {A}", 1), ("str_range_gap2", "{A} til '\\u{{e000}}'", 1),
+    # the documented internal stack keywords on stacks that are too short / with arguments of every kind
+    ("internal_call1", "__internal_call 1 {A}", 1), ("internal_call2", "__internal_push {A}; __internal_call 2 {B}", 2),
+    ("internal_call3", "__internal_push {A}; __internal_push {B}; __internal_call 3 {A}", 2), ("internal_peek", "__internal_push {A}; __internal_peek 1", 1),
+    ("internal_peek_set", "__internal_peek 0 = {A}", 1), ("internal_peek_op", "__internal_push {A}; __internal_peek 1 += {B}", 2),
+    ("internal_pop", "__internal_push {A}; __internal_pop; __internal_pop", 1), ("internal_frame", "__internal_frame (__internal_push {A}; __internal_pop; __internal_pop)", 1),
+    ("internal_for", "__internal_for ({A}) (__internal_peek 1)", 1), ("internal_lambda", "f := __internal_lambda 1 (__internal_peek 1); f({A})", 1),
+    ("internal_lambda_args", "f := __internal_lambda 2 (__internal_call 3 {A}); f({B})", 2),
     ("str_range_gap3", "'\\u{{d7fe}}' to '\\u{{e001}}'", 0), ("iota_by", "force_(iota({A}, {B}))", 2),
     ("precedence", "f := \\a, b -> a; f::precedence = {A}; 1 f 2", 1), ("freeze", "freeze (\\q -> q + {A})", 1),
+]
+
+
+# ---- a caught error leaves no trace: SETUP; try FAIL catch _ -> null; OBSERVE  ==  SETUP; OBSERVE   (differential, no expected values)
+AFT_SETUP = ('struct Foo (a, b); x := [1, [2], 3]; d := {1: [2], "k": 3}; s := "héllo"; q := Foo(1, [2]); v := V(1, 2); st := 1 to 3; n := 5; '
+             'g := \\w -> (x[0] += w; w); cnt := 0; mf := memoize(\\w -> (if (w == 2) throw w else w)); __internal_push 10; __internal_push 20; '
+             'il := __internal_lambda 1 (throw (__internal_peek 0)); ')
+AFT_OBSERVE = ('[x, d, s, q, v, list(st), n, cnt, __internal_peek 0, __internal_peek 1, mf(1), try mf(2) catch e_ -> ["c", e_], g(0), len(x), '
+               '(\\t -> t + 1)(1), for (i_ <- x) yield i_, d !? 1, x == [1, [2], 3]]')
+AFT_FAILS = [
+    "throw 1", "il(5)", "il(5, 6)", "x[9] = 1", "x[1][5] = 1", "d[7] += 1", 'd["k"][0] = 1', "1 // 0", "(\\a_ -> a_)(1, 2)", "a_, b_ := [1]", "a_, ...b_, c_ := [1]",
+    "[1, 2] map (\\w -> throw w)", 'sort([1, "a"])', "[3, 1, 2] sort (\\a_, b_ -> throw a_)", "[1, 2, 3] fold (\\a_, b_ -> throw b_)",
+    "for (i_ <- [1, 2, 3]) (cnt2 := i_; if (i_ == 2) throw i_)", "for (i_ <- [1, 2, 3]) yield (if (i_ == 2) throw i_ else i_)",
+    "switch (5) case 1 -> 0", "Foo(1)", "q[zz] = 1", "v[5] = 1", 's[0] = "é"', 's[1] = "z"', "pop []", "remove x[9]", "st[9]", "null + 1", "mf(2)",
+    "(\\ -> (__internal_push 99; throw 1))()", "__internal_frame (__internal_push 99; throw 1)", "__internal_for ([1, 2]) (throw (__internal_peek 0))",
+    "x[0] = (throw 1)", "every x[0:2] = (throw 1)", "swap x[0], x[9]", "x, n = [1], (throw 2)", "eval(\"1 +\")", "eval(\"throw 3\")", "freeze (\\ -> zzz)",
+    "int(\"zz\")", "json_decode(\"{\")", "chr(-1)", "[1, 2][1.5]", "1 < \"a\"", "{[1 to 2]: 1}", "first([])", "(1 to 3)[5]", "x . zz",
+    "for (i_ <- 1 to 3) for (j_ <- 1 to 3) (if (j_ == 2) throw [i_, j_])", "while (1) (cnt3 := 1; throw 1)", "try (throw 1) catch 2 -> 0",
 ]
 
 
@@ -129,6 +154,12 @@ def cases(tier, shard, nshards):
             body = "force_(%s(%s))" % (f, ", ".join("p_" + a for a in t))
             opts = {"step_ms": 250 if risky else 3000, "fuel": 20000, "compact": True, "hang_retry": not risky}
             yield Case(wrap(body), {"k": "call", "fn": f, "args": list(t), "risky": risky}, pre=PRE, opts=opts)
+    for f in AFT_FAILS:
+        cnt += 1
+        if cnt % nshards != shard:
+            continue
+        yield Case([AFT_SETUP + "try (%s) catch _ -> null; %s" % (f, AFT_OBSERVE), AFT_SETUP + AFT_OBSERVE, AFT_SETUP + "(%s); 0" % f],
+                   {"k": "aftermath", "fail": f, "fn": "aftermath", "args": [], "risky": False}, iso=True, opts={"step_ms": 3000, "fuel": 20000, "compact": True})
     tpool = QUICK if tier == "quick" else [n for n in names if n not in ("negzero", "emptybytes", "defdict", "emptystream", "builtin")]
     t3 = SUB3_QUICK + ["i64max", "dict", "uchar", "ustr"] if tier == "quick" else SUB3 + ["i64max", "bigint", "vector", "badutf8", "ustr"]
     for (name, tpl, holes) in TEMPLATES:
@@ -145,6 +176,8 @@ def cases(tier, shard, nshards):
 
 
 def nontrivial(case, rs):
+    if case.meta["k"] == "aftermath":
+        return rs[0].get("st") == "ok"
     r = rs[0]
     return r.get("st") == "ok" and isinstance(r.get("v"), list)
 
@@ -170,6 +203,9 @@ RESOURCE = ("capacity overflow", "memory allocation", "alloc", "out of memory")
 
 
 def tally(case, rs, extra):
+    if case.meta["k"] == "aftermath":
+        extra["aftermath_cases"] += 1
+        return
     r = rs[0]
     st = r.get("st")
     if case.meta["risky"] and st in ("hang", "abort", "fuel"):
@@ -181,8 +217,27 @@ def tally(case, rs, extra):
         extra["returned_values"] += 1
 
 
+def judge_aftermath(case, rs):
+    m = case.meta
+    a, b, c = rs[0], rs[1], rs[2]
+    sig = "C14 aftermath fail=`%s`" % m["fail"][:40]
+    for src, r in zip(case.steps, rs):
+        if r.get("st") in ("panic", "abort", "hang"):
+            return [Violation(sig + " st=" + r["st"], "%s -> %s %s" % (src, r["st"], (r.get("e") or "")[:200]), "value", r["st"])]
+    if c.get("st") == "ok":
+        return []      # the statement does not fail at all: nothing to compare
+    if b.get("st") != "ok":
+        return [Violation("C14 harness aftermath baseline", "%s -> %s %s" % (case.steps[1], b.get("st"), b.get("e")), None, None)]
+    if a.get("st") != "ok" or json.dumps(a.get("v"), sort_keys=True) != json.dumps(b.get("v"), sort_keys=True) or a.get("o", "") != b.get("o", ""):
+        return [Violation(sig + " st=trace-left", "after the caught failure the observations are %s %s, without it %s" % (a.get("st"), json.dumps(a.get("v", a.get("e")))[:300], json.dumps(b.get("v"))[:300]),
+                          b.get("v"), a.get("v", a.get("st")))]
+    return []
+
+
 def judge(case, rs):
     m = case.meta
+    if m["k"] == "aftermath":
+        return judge_aftermath(case, rs)
     r = rs[0]
     st = r.get("st")
     src = case.steps[0]
